@@ -5,6 +5,7 @@ import props_query
 import props_single
 import props_build
 import props_render
+import props_misc
 
 CHECKS = {}
 CHECKS.update(props_struct.CHECKS)
@@ -13,3 +14,4 @@ CHECKS.update(props_query.CHECKS)
 CHECKS.update(props_single.CHECKS)
 CHECKS.update(props_build.CHECKS)
 CHECKS.update(props_render.CHECKS)
+CHECKS.update(props_misc.CHECKS)
